@@ -321,6 +321,8 @@ def c20(pid, tier, replay):
     chunks = split_ndjson(scr, t, 8 if tier == "quick" else 14)
     for tf, r in zip(chunks, vlib.validate_traces_parallel(scr, "DiscoveryTrace", chunks, xmx="3g")):
         out.add(tf, r, sample_filter=lambda d: len(d.get("hs", [])) >= 3)
+    if not replay:
+        handler_monitor(scr, out, tier)
     ncl, nloc = len(tab["caps"]), len(tab["locs"])
     out.notes.append("exhaustive: every sequence of 0..%d handlers over %d capability classes x %d locations "
                      "(every multiset in every discovery order); seeded: %d multisets of up to 12 handlers in 3 orders each, "
@@ -333,6 +335,79 @@ def c20(pid, tier, replay):
                                    "handlers that cannot be opened are still grouped",
                                    "the class of a capability set is taken as the code reports it (HandlerType); the statement does "
                                    "not define which sets are joystick-like"])
+
+
+def handler_monitor(scr, out, tier):
+    """Beyond the listed properties: the discovery front end input.monitorNewHandlers (HandlerMonitor.tla) - design
+    checked by TLC, the real function run over a private /dev/input and judged by HandlerMonitorHist.  What it
+    finds is reported as OBSERVATION lines and in the evidence notes, never as a violation of C20."""
+    import random
+    base = ('SPECIFICATION Spec\nCONSTANTS\n  Names = {"e1", "e2"}\n  MaxChanges = %d\n  ConsumerStopsAtCancel = %s\n'
+            'INVARIANTS InMemoryMeansHandedOver\nPROPERTIES OnlyNew OnlyPresentAtScan EventuallyReported StreamEnds\nCHECK_DEADLOCK FALSE\n')
+    n = 3 if tier == "quick" else 5
+    res = vlib.run_tlc(scr, "HandlerMonitor", base % (n, "FALSE"), workers=4, timeout=900)
+    if not res.completed:
+        raise Infra("HandlerMonitor.tla (consumer keeps reading) does not satisfy its properties:\n" + res.tail(40))
+    out.states += res.distinct
+    out.transitions += res.generated
+    res2 = vlib.run_tlc(scr, "HandlerMonitor", base % (n, "TRUE"), workers=4, timeout=900)
+    leak_in_design = (not res2.completed) and "StreamEnds" in res2.tail(80)
+    rng = random.Random(vlib.seed() * 73 + 11)
+    names = ["event0", "event1", "event7", "event12", "event255"]
+    junk = ["mouse0", "mice", "js0", "eventual", "event"]          # "event" + nothing, "eventual": HasPrefix("event") says yes
+    scs = []
+    def add(initial, ops, reading):
+        scs.append({"id": len(scs) + 1, "initial": initial, "ops": ops, "reading": reading})
+    A = lambda x: {"op": "add", "n": x}
+    R = lambda x: {"op": "rm", "n": x}
+    S = {"op": "settle"}
+    add([], [A("event0"), S, A("event1"), S, R("event0"), S, A("event0"), S], True)
+    add(["event0", "event1", "mouse0", "js0"], [S, R("event1"), A("event1"), S, {"op": "mkdir", "n": "by-id"}, {"op": "mkdir", "n": "event9"}, S], True)
+    add(["event0"], [S, A("event1"), {"op": "cancel"}], False)
+    add([], [S, {"op": "cancel"}], True)
+    for _ in range(10 if tier == "quick" else 120):
+        present = set(rng.sample(names + junk, rng.randrange(0, 4)))
+        initial = sorted(present)
+        ops = []
+        for _ in range(rng.randrange(2, 14)):
+            r = rng.random()
+            if r < 0.4:
+                x = rng.choice(names + junk)
+                ops.append(A(x))
+            elif r < 0.65:
+                ops.append(R(rng.choice(names + junk)))
+            elif r < 0.95:
+                ops.append(S)
+            else:
+                ops.append({"op": "cancel"})
+        add(initial, ops, rng.random() < 0.6)
+    sp = scr.fresh("hm") + ".json"
+    with open(sp, "w") as f:
+        json.dump(scs, f)
+    t = scr.fresh("handlers") + ".ndjson"
+    h = scr.build()
+    cmd = ["unshare", "-m", "--", "sh", "-c", 'mount -t tmpfs none /dev && mkdir /dev/input && exec "$@"', "sh", h, "handlers", sp, t]
+    r = subprocess.run(cmd, stdout=subprocess.PIPE, stderr=subprocess.PIPE, text=True, timeout=1800)
+    if r.returncode != 0:
+        out.notes.append("beyond the listed properties: the handler monitor could not be run in a mount namespace (%s)" % r.stderr[-200:])
+        return
+    v = vlib.validate_trace(scr, "HandlerMonitorHistTrace", t, xmx="2g")
+    with open(t) as f:
+        lines = f.read().splitlines()
+    obs = {}
+    for name, ln in v["viol"]:
+        obs.setdefault(name, []).append(json.loads(lines[ln - 1])["id"] if ln >= 1 else 0)
+    for name, ids in sorted(obs.items()):
+        print("OBSERVATION (outside the listed properties, not a verdict on %s): %s in handler-monitor scenarios %s" % (out.pid, name, ids[:8]))
+    out.extra["beyond_properties"] = {
+        "module": "HandlerMonitor.tla / HandlerMonitorHist.tla (input.monitorNewHandlers)",
+        "design_states": res.distinct, "scenarios_on_real_code": len(lines),
+        "design_leak_when_consumer_stops_at_cancel": leak_in_design,
+        "observations": {k: len(x) for k, x in obs.items()}, "classes": v["branches"]}
+    out.notes.append("beyond the listed properties: input.monitorNewHandlers modelled (HandlerMonitor.tla, %d states; with the "
+                     "consumer that stops at cancellation - MonitorNewDevices - the design leaves the monitor blocked in its send: %s) "
+                     "and run %d times over a private /dev/input; observations: %s"
+                     % (res.distinct, leak_in_design, len(lines), {k: len(x) for k, x in obs.items()} or "none"))
 
 
 def split_ndjson(scr, path, n):
@@ -382,13 +457,52 @@ import cfggen
 import glob
 
 
+def hidi_abort(stderr):
+    """The Go runtime aborted the process (fatal error / unrecovered panic) with HIDI code on a stack."""
+    return ("fatal error:" in stderr or "panic:" in stderr) and "gethiox/HIDI/internal/pkg" in stderr
+
+
+def abort_line(cur, stderr):
+    with open(cur) as f:
+        d = json.load(f)
+    first = [l for l in stderr.splitlines() if l.startswith(("fatal error:", "panic:", "runtime:"))][:2]
+    d["msg"] = "the process was taken down: " + " / ".join(first)[:300]
+    return d
+
+
 def run_parse_cases(scr, h, cases, tag):
-    cpath = scr.fresh(tag + "-cases") + ".json"
-    with open(cpath, "w") as f:
-        json.dump(cases, f)
+    """`verifh parse` over the cases.  A run-time abort of the harness process with HIDI frames on the stack IS the
+    behaviour C09 forbids (no recover() can stop it): the input being parsed is logged with outcome "fatal" and the
+    remaining cases run in a fresh process (at most three such restarts)."""
     t = scr.fresh(tag) + ".ndjson"
-    run_cmd([h, "parse", cpath, t])
-    os.remove(cpath)
+    open(t, "w").close()
+    rest = list(cases)
+    for attempt in range(4):
+        cpath = scr.fresh(tag + "-cases") + ".json"
+        with open(cpath, "w") as f:
+            json.dump(rest, f)
+        part = scr.fresh(tag + "-part") + ".ndjson"
+        cur = scr.fresh(tag + "-cur") + ".json"
+        r = subprocess.run([h, "parse", cpath, part], stdout=subprocess.PIPE, stderr=subprocess.PIPE, text=True, timeout=1800,
+                           env=dict(os.environ, VERIFH_CUR=cur))
+        os.remove(cpath)
+        if r.returncode == 0:
+            with open(t, "a") as o, open(part) as f:
+                o.write(f.read())
+            os.remove(part)
+            return t
+        if not (hidi_abort(r.stderr) and os.path.exists(cur)):
+            raise Infra("verifh parse failed: " + r.stderr[-3000:])
+        d = abort_line(cur, r.stderr)
+        if attempt == 3:      # four inputs have taken the process down: the verdict is there, the rest would repeat it
+            with open(t, "a") as o:
+                o.write(json.dumps(d) + "\n")
+            return t
+        idx = next(i for i, c in enumerate(rest) if c["id"] == d["id"])
+        # what the dead process had judged before is lost with its buffer: run those cases again, without the culprit
+        with open(t, "a") as o:
+            o.write(json.dumps(d) + "\n")
+        rest = rest[:idx] + rest[idx + 1:]
     return t
 
 
@@ -471,7 +585,18 @@ def c09(pid, tier, replay):
     nrand = 3000 if tier == "quick" else 60000
     if tier == "quick":
         files = files[:1] + files[2:3] + files[-2:]
-    run_cmd([h, "parsefuzz", str(seed), str(nrand), t2] + files, timeout=3000)
+    fz = subprocess.run([h, "parsefuzz", str(seed), str(nrand), t2] + files, stdout=subprocess.PIPE, stderr=subprocess.PIPE, text=True, timeout=3000)
+    if fz.returncode != 0:
+        if not hidi_abort(fz.stderr):
+            raise Infra("verifh parsefuzz failed: " + fz.stderr[-3000:])
+        # the runtime aborted: same seed again, one input at a time, each noted, to learn which input it was
+        cur = scr.fresh("c09f-cur") + ".json"
+        fz = subprocess.run([h, "parsefuzz", str(seed), str(nrand), t2] + files, stdout=subprocess.PIPE, stderr=subprocess.PIPE, text=True,
+                            timeout=3000, env=dict(os.environ, VERIFH_SERIAL="1", VERIFH_CUR=cur))
+        if fz.returncode == 0 or not (hidi_abort(fz.stderr) and os.path.exists(cur)):
+            raise Infra("verifh parsefuzz aborted, and did not when run serially: " + fz.stderr[-2000:])
+        with open(t2, "w") as o:
+            o.write(json.dumps(abort_line(cur, fz.stderr)) + "\n")
     # (c) hidi.toml through the application's own LoadHIDIConfig
     hdir = scr.path("hiditoml")
     os.makedirs(hdir, exist_ok=True)
